@@ -81,7 +81,7 @@ def build_tools():
             _write_if_changed(os.path.join(hdir, "go.sum"), f.read())
     except FileNotFoundError:
         pass
-    cover = ["-cover", "-coverpkg=github.com/kisielk/og-rek"] if os.environ.get("VERIF_COVER") else []   # diagnostic only
+    cover = ["-cover", "-coverpkg=./...,github.com/kisielk/og-rek/..."] if os.environ.get("VERIF_COVER") else []   # diagnostic only
     rc, out = sh(["go", "build", "-tags", "verif"] + cover + ["-o", HARNESS, "."], cwd=hdir, env=GOENV)
     if rc != 0:
         raise BuildFailure("harness does not build against /repo (tag verif)", out)
